@@ -565,8 +565,10 @@ func (p ppath) wire() []string {
 	return append(out, ";")
 }
 
-func (p ppath) expr() jp.Expr {
-	x := jp.R()
+func (p ppath) expr() jp.Expr { return p.exprFrom(jp.R()) }
+
+// exprFrom builds the expression on a given start (jp.R() = "$", an empty Expr = relative form).
+func (p ppath) exprFrom(x jp.Expr) jp.Expr {
 	for _, s := range p {
 		switch s.kind {
 		case 'k':
@@ -612,17 +614,20 @@ func simpleKey(k string) bool {
 	return true
 }
 
-// str renders the path in JSONPath text when every key is a plain identifier.
-func (p ppath) str() (string, bool) {
+// str renders the path in JSONPath text when every key is a plain identifier; rooted=false
+// leaves out the leading "$" ("a.b[0]" instead of "$.a.b[0]").
+func (p ppath) str(rooted bool) (string, bool) {
 	var sb strings.Builder
-	sb.WriteString("$")
+	if rooted || len(p) == 0 {
+		sb.WriteString("$")
+	}
 	for i, s := range p {
 		switch s.kind {
 		case 'k':
 			if !simpleKey(s.key) {
 				return "", false
 			}
-			if i > 0 && p[i-1].kind == 'd' {
+			if (i > 0 && p[i-1].kind == 'd') || (i == 0 && !rooted) {
 				sb.WriteString(s.key)
 			} else {
 				sb.WriteString("." + s.key)
